@@ -493,6 +493,18 @@ VARIANTS = [
       note="seed C18-d"),
     V("silent-initial-inference-de-morgan", silent=["C18"], edits=[
         (M, "if not (isinstance(child, dict) and child.get('type') == 'history')]", "if not isinstance(child, dict) or child.get('type') != 'history']")]),
+    V("c17-runner-passed-to-verifier-but-not-parsed", {"C17": "R3"}, edits=[
+        (CM, "        problems.extend(_syntax_problems('runner', runner_code))\n", "        logger.debug('runner: %d characters', len(runner_code))\n")],
+      note="the defect repaired in /repo (runner written unparsed), in the form 'handed to the verifier, never parsed'"),
+    V("c17-combined-file-not-parsed", {"C17": "R3"}, edits=[
+        (CM, "            problems.extend(_syntax_problems('combined file', _combined_output(logic_code, runner_code)))\n", "            pass\n")],
+      note="single-file output merged and polished after verification, written unparsed"),
+    V("c17-combined-file-parsed-from-other-inputs", {"C17": "R3"}, edits=[
+        (CM, "_syntax_problems('combined file', _combined_output(logic_code, runner_code))", "_syntax_problems('combined file', _combined_output(logic_code, logic_code))")],
+      note="what is parsed is not what the writer recomputes"),
+    V("silent-runner-parsed-inline", silent=["C17"], edits=[
+        (CM, "        problems.extend(_syntax_problems('runner', runner_code))\n", "        try:\n            ast.parse(runner_code)\n        except SyntaxError as exc:\n            problems.append(f'generated runner is not valid Python (line {exc.lineno})')\n")],
+      note="the syntax helper inlined for the runner"),
     # ================================================================== must stay silent
     V("silent-normal-form", silent=ALL, edits=[], note="whole tree re-emitted by ast.unparse: formatting, comments and line numbers all change"),
     V("silent-rename-local", silent=["C01", "C03", "C05", "C09", "C10"], edits=[
